@@ -15,7 +15,8 @@ if os.path.exists(p):
         mis = re.search(r"mismatches=(\d+)", rest); orc = re.search(r"oracle_failures=(\d+)", rest); th = re.search(r"theorems=(\d+)/(\d+)", rest)
         broken = "broken-t" in rest or (th and th.group(1) != th.group(2))
         latest[(pid, mm)] = dict(detected=("DETECTED" in (det.group(1) if det else "")), mism=int(mis.group(1)) if mis else 0,
-                                  oracle=int(orc.group(1)) if orc else 0, theorems=(th.group(0)[9:] if th else "?"), warn=("WARNING" in rest))
+                                  oracle=int(orc.group(1)) if orc else 0, theorems=(th.group(0)[9:] if th else "?"), warn=("WARNING" in rest),
+                                  nlc=(re.search(r"no_longer_checks=\[(.+?)\] cases", rest).group(1)[:120].replace("|", "/") if re.search(r"no_longer_checks=\[(.+?)\] cases", rest) else ""))
 extra = os.path.join(ROOT, "seeded", "extra_results.json")   # results obtained through another property's check, recorded by hand
 xr = json.load(open(extra)) if os.path.exists(extra) else {}
 rows = []
@@ -33,6 +34,8 @@ for d in sorted(glob.glob(os.path.join(ROOT, "seeded", "*", "*", "meta.json"))):
             how.append("%d model≠impl cases" % r["mism"])
         if r["oracle"]:
             how.append("%d oracle failures (failing input in replay)" % r["oracle"])
+        if r.get("nlc"):
+            how.append("tie breaks: " + r["nlc"])
     res = ("DETECTED" if r and r["detected"] and not r["warn"] and how else ("missed" if r else "not run"))
     if (pid + "/" + mm) in xr:
         res = xr[pid + "/" + mm]["result"]; how = [xr[pid + "/" + mm]["how"]]
